@@ -234,7 +234,9 @@ def handle : List String → Option String
   | ["mergeset", a, b] => do
     let a ← decNats a
     let b ← decNats b
-    some (encNats (mergeSet a b))
+    some (match mergeSetE a b with
+      | some l => encNats l
+      | none => "err")
   | ["mergepats", a, b] => do
     let a ← decNats a
     let b ← decNats b
